@@ -9,6 +9,13 @@ mkdir -p .work evidence
 rc=0
 for f in spec/*.tla; do
   m=$(basename "$f" .tla)
+  if grep -q "^EXTENDS.*Apalache" "$f"; then
+    # a specification for the symbolic checker: parsed by Apalache itself (its standard module is not on TLC's classpath)
+    command -v apalache-mc >/dev/null || { echo "apalache-mc missing"; rc=2; continue; }
+    out=$(cd spec && apalache-mc parse --out-dir=../.work/apalache_parse "$m.tla" 2>&1); rm -rf .work/apalache_parse
+    echo "$out" | grep -q "EXITCODE: OK" || { echo "Apalache parse FAILED: $m"; echo "$out" | tail -10; rc=2; }
+    continue
+  fi
   out=$(cd spec && java -cp /opt/veriftools/tla/tla2tools.jar:/opt/veriftools/tla/CommunityModules-deps.jar tla2sany.SANY "$m.tla" 2>&1)
   if echo "$out" | grep -q -E "Semantic errors|Parse Error|\*\*\* Errors|Fatal errors|Could not"; then echo "SANY FAILED: $m"; echo "$out" | tail -20; rc=2; fi
 done
